@@ -66,7 +66,8 @@ def check_property(prop, tier, seed=0, replay_path=None, only=None):
     if not contracts:
         raise ToolError("no contracts for " + prop)
     results = run_all(contracts, tier)
-    replay_dir = os.path.join(VERIF, "replay", prop)
+    OUT = os.environ.get("SBV_OUT", VERIF)  # scratch runs (seeded-change triage) write their evidence and replay files elsewhere
+    replay_dir = os.path.join(OUT, "replay", prop)
     os.makedirs(replay_dir, exist_ok=True)
     skipped_optional = [r for r in results if r.status == "undecided" and r.c.optional]
     undecided = [r for r in results if r.status in ("undecided", "vacuous") and not (r.status == "undecided" and r.c.optional)]
@@ -179,8 +180,8 @@ def check_property(prop, tier, seed=0, replay_path=None, only=None):
         assumptions=ASSUMPTIONS + [t for m in mods for t in getattr(m, "ASSUMPTIONS", [])],
         wall_s=round(wall, 1), violations=len(vio_lines),
     )
-    os.makedirs(os.path.join(VERIF, "evidence"), exist_ok=True)
-    json.dump(ev, open(os.path.join(VERIF, "evidence", prop + ".json"), "w"), indent=1)
+    os.makedirs(os.path.join(OUT, "evidence"), exist_ok=True)
+    json.dump(ev, open(os.path.join(OUT, "evidence", prop + ".json"), "w"), indent=1)
     for l in known_lines:
         print(l)
     for l in vio_lines:
